@@ -89,6 +89,7 @@ Record qitem := mkQ { qi_targeted : bool; qi_idx : N; qi_target : key; qi_ev : e
 (* one handler invocation as the harness logs it *)
 Record logent := mkLog {
   lg_handler : key; lg_targeted : bool; lg_tag : N; lg_ev : evv; lg_target : key;
+  lg_resets : N;                            (* arena resets so far *)
   lg_recv_item : list item;                 (* [] for global receivers *)
   lg_views : list (N * list item) }.        (* per Fetcher/Single/TrySingle param: (code, items) *)
 
@@ -561,8 +562,9 @@ Definition recv_item (w : world) (q : query) (c : list centry) (loc : eloc) : fa
   end.
 
 (* write through the mutable leaves of a query at every row of the cached archetypes *)
-Definition bump_vals (comps : list N) (muts : list N) (d : N) (vals : list cval) : list cval :=
-  map (fun '(c, v) => if existsb (N.eqb c) muts then (fst v, snd v + d * N.of_nat (length (filter (N.eqb c) muts))) else v)
+Definition bump_vals (zst : N -> bool) (comps : list N) (muts : list N) (d : N) (vals : list cval) : list cval :=
+  map (fun '(c, v) => if existsb (N.eqb c) muts && negb (zst c)
+                      then (fst v, snd v + d * N.of_nat (length (filter (N.eqb c) muts))) else v)
       (combine comps vals).
 Definition write_arch (w : world) (q : query) (d : N) (ai : N) (only_row : option N) : world :=
   match slab_get (w_archs w) ai with
@@ -573,9 +575,9 @@ Definition write_arch (w : world) (q : query) (d : N) (ai : N) (only_row : optio
       | Some st =>
           let muts := amuts st in
           let rows' := match only_row with
-                       | None => map (fun '(e, vals) => (e, bump_vals (a_comps a) muts d vals)) (a_rows a)
+                       | None => map (fun '(e, vals) => (e, bump_vals (fun c => ctag_zst (comp_tag w c)) (a_comps a) muts d vals)) (a_rows a)
                        | Some r => match nget (a_rows a) r with
-                                   | Some (e, vals) => nset (a_rows a) r (e, bump_vals (a_comps a) muts d vals)
+                                   | Some (e, vals) => nset (a_rows a) r (e, bump_vals (fun c => ctag_zst (comp_tag w c)) (a_comps a) muts d vals)
                                    | None => a_rows a end
                        end in
           set_archs w (slab_set (w_archs w) ai (set_rows a rows'))
@@ -658,7 +660,11 @@ Fixpoint run_actions (acts : list act) (ps : list rparam) (ev_target : key) (fre
           | _ =>
             match reserve w0 with
             | RFail f w1 => (sent, w1, Some f)
-            | ROk id w1 => send false G_SPAWN KEY_NULL (mkEv 0 0 id) (push_known w1 id) (fresh ++ [id])
+            | ROk id w1 =>
+                match sender_lookup ps false G_SPAWN with
+                | Some (Some _) => send false G_SPAWN KEY_NULL (mkEv 0 0 id) (push_known w1 id) (fresh ++ [id])
+                | _ => (sent, w1, Some (FPanic 3))
+                end
             end
           end
       | AInsert t k =>
@@ -671,6 +677,10 @@ Fixpoint run_actions (acts : list act) (ps : list rparam) (ev_target : key) (fre
       | ADespawn t => send true T_DESPAWN (resolve_tgt w0 t ev_target fresh) (mkEv 0 0 KEY_NULL) w0 fresh
       end
   end.
+
+(* events whose value carries a mutable payload in the harness *)
+Definition ev_has_payload (targeted : bool) (tag : N) : bool :=
+  if targeted then (tag <? 4) || ((20 <=? tag) && (tag <? 40) && negb (ctag_zst (tag - 20))) else tag <? 4.
 
 Section Beh.
 (* a handler body: given the handler, the event it received and the invocation number *)
@@ -723,14 +733,14 @@ Definition run_handler (w : world) (h : hinfo) (it : qitem) (tag : N) (loc : elo
   | inl f => (mkHres false (qi_ev it) [] (Some f), w)
   | inr (ritems, views) =>
       let hs := w_h w in
-      let le := mkLog (h_key h) (qi_targeted it) tag (qi_ev it) (qi_target it) ritems views in
+      let le := mkLog (h_key h) (qi_targeted it) tag (qi_ev it) (qi_target it) (w_resets w) ritems views in
       let inv := k_inv hs in
       let w1 := set_h w (set_hst_fields hs (k_ids hs) (k_fuel hs) (k_serial hs) (inv + 1) (k_log hs ++ [le])) in
       let sc := beh h le inv in
       let ev := qi_ev it in
-      let ev1 := if h_recv_mut h then mkEv (ev_ser ev) (ev_val ev + s_evdelta sc) (ev_id ev) else ev in
+      let ev1 := if h_recv_mut h && ev_has_payload (qi_targeted it) tag then mkEv (ev_ser ev) (ev_val ev + s_evdelta sc) (ev_id ev) else ev in
       let w2 := apply_writes w1 (h_params h) loc (s_wdelta sc) in
-      let ev_target := if qi_targeted it then qi_target it else ev_id ev in
+      let ev_target := if qi_targeted it then qi_target it else if tag =? G_SPAWN then ev_id ev else KEY_NULL in
       let '(sent, w3, fl) := run_actions (s_actions sc) (h_params h) ev_target [] [] w2 in
       let taken := h_recv_mut h && s_take sc in
       match fl with
@@ -836,7 +846,10 @@ Fixpoint flush_loop (fuel : nat) (q : list qitem) (w : world) : world * option f
           let '(sent, w1, fl) := deliver_one it w in
           let q1 := rest ++ sent in
           match fl with
-          | Some (FPanic k) => (unwind_queue q1 w1, Some (FPanic k))
+          | Some (FPanic k) =>
+              (* EventDropper::drop: destroy what is queued, then materialise the reservations *)
+              let w2 := unwind_queue q1 w1 in
+              (match spawn_all w2 with ROk _ w3 => w3 | RFail _ w3 => w3 end, Some (FPanic k))
           | Some (FUB s) => (w1, Some (FUB s))
           | None => flush_loop f (firstn before q1 ++ rev (skipn before q1)) w1
           end
@@ -875,9 +888,13 @@ with send_global (fuel : nat) (tag : N) (ev : evv) (w : world) : res unit :=
   match fuel with
   | O => RFail (FPanic 8) w
   | S f =>
-      do (k, w1) <- add_global_event f tag w;
-      let w2 := if (10 <? tag) then note w1 tag (ev_id ev) else w1 in
-      flush [mkQ false (fst k) KEY_NULL ev] w2
+      (* if registration unwinds, the by-value event argument is dropped by the caller's frame *)
+      match add_global_event f tag w with
+      | RFail e w' => RFail e (ev_drop w' false tag ev)
+      | ROk k w1 =>
+          let w2 := if (10 <? tag) then note w1 tag (ev_id ev) else w1 in
+          flush [mkQ false (fst k) KEY_NULL ev] w2
+      end
   end.
 Definition RFUEL : nat := 8.
 
@@ -916,8 +933,10 @@ Definition add_targeted_event (tag : N) (w : world) : res key :=
   end.
 
 Definition send_to (tag : N) (target : key) (ev : evv) (w : world) : res unit :=
-  do (k, w1) <- add_targeted_event tag w;
-  flush [mkQ true (fst k) target ev] w1.
+  match add_targeted_event tag w with
+  | RFail e w' => RFail e (ev_drop w' true tag ev)
+  | ROk k w1 => flush [mkQ true (fst k) target ev] w1
+  end.
 
 (* ------------------------------------------------------------------ *)
 (* Handlers: init of the parameters, validation, registration          *)
